@@ -939,6 +939,195 @@ def make_exodus_blocks(oid, quad_first, tiers=("quick", "thorough")):
                       bounds="blocks of 2 triangles and 1 quadrilateral, symbolic node ids < 5, 5 nodes at fixed rational unit vectors", tiers=tiers)
 
 
+# ------------------------------------------------------------------ GeoJSON / shapefile polygons (geopandas reader)
+class _GeoCoords:
+    """shapely CoordinateSequence stand-in: closed ring (first point repeated at the end)"""
+    def __init__(self, xs, ys):
+        self._x, self._y = list(xs) + [xs[0]], list(ys) + [ys[0]]
+
+    def __len__(self):
+        return len(self._x)
+
+    @property
+    def xy(self):
+        return list(self._x), list(self._y)
+
+
+class _GeoRing:
+    def __init__(self, xs, ys):
+        self.coords = _GeoCoords(xs, ys)
+
+
+class _GeoPoly:
+    geom_type = "Polygon"
+
+    def __init__(self, xs, ys):
+        self.exterior = _GeoRing(xs, ys)
+
+
+class _GeoMulti:
+    geom_type = "MultiPolygon"
+
+    def __init__(self, parts):
+        self.geoms = list(parts)
+
+
+class _GeoSeries:
+    def __init__(self, vals):
+        self.vals = list(vals)
+
+    def apply(self, fn):
+        return _GeoSeries([fn(v) for v in self.vals])
+
+    def max(self):
+        return max(self.vals)
+
+
+class _GeoFrame:
+    """what the reader uses of a GeoDataFrame: crs, ['geometry'].apply(..).max(), iterrows()"""
+    def __init__(self, geoms, crs):
+        self.geoms, self.crs = list(geoms), crs
+
+    def __getitem__(self, k):
+        assert k == "geometry"
+        return _GeoSeries(self.geoms)
+
+    def iterrows(self):
+        for i, g in enumerate(self.geoms):
+            yield i, {"geometry": g}
+
+    def set_crs(self, crs):
+        return _GeoFrame(self.geoms, crs)
+
+    def to_crs(self, crs):
+        raise AssertionError("harness: source is already WGS84")
+
+
+GEO_LAYOUTS = {"polys": [[4], [3]], "multi2": [[3], [4, 3], [3]], "multi3": [[3, 3, 4]], "multi22": [[3, 4], [4, 3]]}
+
+
+def make_geo(oid, layout, lon_range="180", crs_set=True, ext=".geojson", tiers=("quick", "thorough")):
+    """Grid.from_file(<polygons>, backend='geopandas'): features are Polygons / MultiPolygons (layout = ring sizes per feature);
+    every exterior ring becomes one face, in feature order, with its own corners in ring order"""
+    feats = GEO_LAYOUTS[layout]
+    rings = [n for ft in feats for n in ft]
+    n_face, n_max, n_pts = len(rings), max(rings), sum(rings)
+
+    def setup(ctx):
+        lo, hi = (-180, 180) if lon_range == "180" else (0, 360)
+        lon = _reals(ctx, "lon", n_pts, lo, hi)
+        lat = _reals(ctx, "lat", n_pts, -90, 90)
+        return lon, lat
+
+    def run(ctx, inp):
+        lon, lat = inp
+        w = world()
+        WGS = w.get("uxarray.io._geopandas", "WGS84_CRS")
+        geoms, k = [], 0
+        for ft in feats:
+            parts = []
+            for n in ft:
+                parts.append(_GeoPoly([mk(v) for v in lon[k:k + n]], [mk(v) for v in lat[k:k + n]]))
+                k += n
+            geoms.append(parts[0] if len(ft) == 1 else _GeoMulti(parts))
+        frame = _GeoFrame(geoms, WGS if crs_set else None)
+        seen = []
+
+        class _GPD:
+            @staticmethod
+            def read_file(filepath, driver=None, **kw):
+                seen.append(filepath)
+                return frame
+        old = w.get("uxarray.io._geopandas", "gpd")
+        w.set("uxarray.io._geopandas", "gpd", _GPD)
+        try:
+            Grid = w.get("uxarray.grid.grid", "Grid")
+            g = Grid.from_file("source" + ext, backend="geopandas")
+        finally:
+            w.set("uxarray.io._geopandas", "gpd", old)
+        ctx.prove("the file name is handed to geopandas.read_file", seen == ["source" + ext])
+        fnv = g.face_node_connectivity.values
+        got = fnv.raw()
+        ctx.prove("one face per exterior ring, platform integer dtype", got.shape_cap == (n_face, n_max) and _int_dtype(fnv))
+        if got.shape_cap != (n_face, n_max):
+            return
+        glon, glat = [_zr(v) for v in g.node_lon.values.raw().flat_list()], [_zr(v) for v in g.node_lat.values.raw().flat_list()]
+        ctx.prove("one node per ring corner (closing point dropped)", len(glon) == n_pts and len(glat) == n_pts)
+        if len(glon) != n_pts or len(glat) != n_pts:
+            return
+        k = 0
+        for f, n in enumerate(rings):
+            cl = []
+            for j in range(n_max):
+                idx = got[f, j]
+                if j < n:
+                    if isinstance(idx, sc.Sym):
+                        ctx.prove(f"face {f} corner {j}: concrete node index", False)
+                        return
+                    idx = int(idx)
+                    cl.append(z3.BoolVal(0 <= idx < n_pts))
+                    if 0 <= idx < n_pts:
+                        cl += [_lon_ok(glon[idx], lon[k + j]), glat[idx] == lat[k + j]]
+                else:
+                    cl.append(sc.z(idx) == F if isinstance(idx, sc.Sym) else z3.BoolVal(int(idx) == F))
+            ctx.prove(f"face {f}: the ring's corner positions in ring order (lon mod 360 in [-180,180], lat), padding at the end", z3.And(*cl))
+            k += n
+
+    def replay(v):
+        import json, os, tempfile
+        import uxarray as ux
+        lon, lat = [float(x) for x in v["lon"]], [float(x) for x in v["lat"]]
+        feats_js, k, ring_pts = [], 0, []
+        for ft in feats:
+            polys = []
+            for n in ft:
+                pts = [[lon[k + j], lat[k + j]] for j in range(n)]
+                ring_pts.append(pts)
+                polys.append([pts + [pts[0]]])
+                k += n
+            geom = {"type": "Polygon", "coordinates": polys[0]} if len(ft) == 1 else {"type": "MultiPolygon", "coordinates": polys}
+            feats_js.append({"type": "Feature", "properties": {}, "geometry": geom})
+        d = tempfile.mkdtemp(prefix="c01geo_")
+        path = os.path.join(d, "source.geojson")
+        try:
+            with open(path, "w") as fh:
+                json.dump({"type": "FeatureCollection", "features": feats_js}, fh)
+            try:
+                g = ux.Grid.from_file(path, backend="geopandas")
+                fnr = g.face_node_connectivity.values
+                glon, glat = np.asarray(g.node_lon.values, dtype=float), np.asarray(g.node_lat.values, dtype=float)
+            except Exception as e:
+                return f"Grid.from_file on a GeoJSON source raised {type(e).__name__}: {str(e)[:150]}"
+        finally:
+            import shutil
+            shutil.rmtree(d, ignore_errors=True)
+        if fnr.dtype != np.intp:
+            return f"face_node_connectivity dtype {fnr.dtype}"
+        if fnr.shape[0] != n_face:
+            return f"the source has {n_face} exterior rings, the grid {fnr.shape[0]} faces"
+        for f, pts in enumerate(ring_pts):
+            row = [int(x) for x in fnr[f]]
+            if any(x == F for x in row[:len(pts)]) or any(x != F for x in row[len(pts):]):
+                return f"face {f} (ring of {len(pts)} corners) decoded as row {row}: padding is not 'fill values at the end only'"
+            for j, (lo, la) in enumerate(pts):
+                i = row[j]
+                if not 0 <= i < len(glon):
+                    return f"face {f} corner {j}: node index {i} out of range"
+                if abs(((glon[i] - lo + 180) % 360) - 180) > 1e-9 or abs(glat[i] - la) > 1e-9:
+                    return (f"GeoJSON source, feature layout {feats}: face {f} corner {j} decoded at (lon {glon[i]}, lat {glat[i]}), "
+                            f"the source ring has (lon {lo}, lat {la})")
+        return _check_lon_range(g)
+
+    return Obligation(oid, f"polygon features (layout {feats}, lon {lon_range}, crs {'WGS84' if crs_set else 'unset'}, {ext}) -> Grid via the geopandas reader",
+                      setup, run, replay, exact=True,
+                      functions=["Grid.from_file", "_geopandas._read_geodataframe", "_gpd_read", "_set_crs", "_extract_geometry_info", "_get_num_nodes",
+                                 "_read_polygon", "_read_multipolygon", "Grid.__init__", "_set_desired_longitude_range"],
+                      stubs=["geopandas.read_file -> frame of Polygon/MultiPolygon stand-ins with symbolic exterior rings (file bytes -> geometries is geopandas/GDAL, outside); "
+                             "replay writes a real GeoJSON file and reads it with the real geopandas"],
+                      bounds=f"{len(feats)} features with ring sizes {feats}; every corner position symbolic (lon in {lon_range} convention, lat in [-90,90]); interior rings (holes) and CRS re-projection outside",
+                      tiers=tiers, timeout_s=600, query_timeout_s=300)
+
+
 def _c(v):
     if isinstance(v, sc.SymReal):
         return v.e.as_fraction()
@@ -1059,6 +1248,8 @@ def obligations(tier):
             make_scrip("C01.scrip.180", "180", tiers=("thorough",), cost=40), make_scrip("C01.scrip.360", "360", tiers=("thorough",), cost=100)]
     obs += [make_fill(f"C01.fill.{dt}.{fk}", dt, fk) for dt, fk in (("int64", "value"), ("int32", "value"), ("float64", "value"), ("int32", "none"))]
     obs += [make_sniff("C01.sniff")]
+    obs += [make_geo("C01.geo.polys", "polys"), make_geo("C01.geo.multi2", "multi2"), make_geo("C01.geo.multi2.360", "multi2", lon_range="360"),
+            make_geo("C01.geo.multi3.shp.nocrs", "multi3", crs_set=False, ext=".shp"), make_geo("C01.geo.multi22", "multi22", tiers=("thorough",))]
     for o in obs:
         o.replay = _catching(o.replay)
     return [o for o in obs if tier in o.tiers]
